@@ -1,4 +1,5 @@
 """Helpers shared by the property modules."""
+import os
 import warnings
 
 from hypothesis import strategies as st
@@ -78,7 +79,9 @@ def render_case(c, stats=None):
     try:
         return render.render(c["script"], to_layout(c["layout"]), stats)
     except render.RenderError as e:
-        raise HarnessError("render: %s" % e)
+        if os.environ.get("BBV_STRICT"):
+            raise HarnessError("render: %s" % e)
+        raise Discard("generator-unrenderable-model")
 
 
 def reference(script, includes=None):
@@ -90,7 +93,10 @@ def reference(script, includes=None):
     except OutOfDomain as e:
         raise Discard("domain:" + e.reason)
     except refsem.RefModelError as e:
-        raise HarnessError("generator produced an invalid model: %s\n%s" % (e, render.render(script)))
+        # a generator defect, never a violation: the case is discarded and counted (reported in the evidence)
+        if os.environ.get("BBV_STRICT"):
+            raise HarnessError("generator produced an invalid model: %s\n%s" % (e, render.render(script)))
+        raise Discard("generator-invalid-model")
 
 
 def _rsyms(v):
@@ -144,10 +150,7 @@ def _check_symbolic_domain(ref):
                     raise OutOfDomain("symbol cancels identically")
 
 
-class Discard(Exception):
-    def __init__(self, reason):
-        super().__init__(reason)
-        self.reason = reason
+from ..run import Discard  # noqa: E402  (re-exported)
 
 
 def features(script):
